@@ -907,7 +907,7 @@ Section UnitsR.
 Local Open Scope R_scope.
 
 Definition Rumul := umul R Rmult.
-Definition Rupow := upow R Rmult Rdiv 1.
+Definition Rupow (pinned : bool) := upow R Rmult Rdiv 1 pinned.
 Definition Rto_si := to_si_val R Rmult.
 Definition Rfrom_si := from_si_val R Rdiv.
 
@@ -927,55 +927,82 @@ Proof.
   rewrite IH by assumption. field. split; [apply pow_nonzero|]; assumption.
 Qed.
 
-(* value of u^p: the p-th power for p <> 0, but the unchanged factor for p = 0 *)
-Lemma upow_val : forall (u : unit_ R) p, uval u <> 0 -> p <> 0%Z -> uval (Rupow u p) = powerRZ (uval u) p.
+(* value of u^p: the p-th power for p <> 0 in both variants *)
+Lemma upow_val : forall pinned (u : unit_ R) p, uval u <> 0 -> p <> 0%Z -> uval (Rupow pinned u p) = powerRZ (uval u) p.
 Proof.
-  intros u p H Hp. unfold Rupow, upow. cbn [uval].
-  destruct (0 <=? p)%Z eqn:E.
-  - apply Z.leb_le in E. rewrite rep_mul.
+  intros pinned u p H Hp. unfold Rupow, upow. cbn [uval].
+  assert (E0 : (if pinned then (0 <=? p)%Z else (0 <? p)%Z) = (0 <? p)%Z).
+  { destruct pinned; [|reflexivity]. destruct (0 <=? p)%Z eqn:A; destruct (0 <? p)%Z eqn:B; try reflexivity;
+    [apply Z.leb_le in A; apply Z.ltb_ge in B; lia | apply Z.leb_gt in A; apply Z.ltb_lt in B; lia]. }
+  rewrite E0. destruct (0 <? p)%Z eqn:E.
+  - apply Z.ltb_lt in E. rewrite rep_mul.
     destruct p as [|p|p]; try lia. cbn [powerRZ].
     replace (Z.to_nat (Z.pos p - 1)) with (Pos.to_nat p - 1)%nat by lia.
     destruct (Pos.to_nat p) as [|k] eqn:Ek; [lia|]. cbn [pow]. replace (S k - 1)%nat with k by lia. ring.
-  - apply Z.leb_gt in E. rewrite rep_div by assumption.
+  - apply Z.ltb_ge in E. rewrite rep_div by assumption.
     destruct p as [|p|p]; try lia. cbn [powerRZ Z.opp].
     replace (Z.to_nat (Z.pos p)) with (Pos.to_nat p) by lia. field. apply pow_nonzero. assumption.
 Qed.
 
-Lemma upow_val_zero : forall (u : unit_ R), uval (Rupow u 0) = uval u.
+(* exponent 0: the pinned code keeps the factor, the repaired code gives 1 *)
+Lemma upow_val_zero_pinned : forall (u : unit_ R), uval (Rupow true u 0) = uval u.
 Proof. intro u. reflexivity. Qed.
+
+Lemma upow_val_zero_repaired : forall (u : unit_ R), uval (Rupow false u 0) = 1.
+Proof. intro u. reflexivity. Qed.
+
+Lemma upow_val_repaired : forall (u : unit_ R) p, uval u <> 0 -> uval (Rupow false u p) = powerRZ (uval u) p.
+Proof.
+  intros u p H. destruct (Z.eq_dec p 0) as [->|Hp]; [reflexivity|]. now apply upow_val.
+Qed.
 
 Lemma zip_add_map : forall (l : list Z) a b,
   zip_with Z.add (map (fun e => (e * a)%Z) l) (map (fun e => (e * b)%Z) l) = map (fun e => (e * (a + b))%Z) l.
 Proof. induction l as [|e l IH]; intros; cbn [map zip_with]; [reflexivity|]. rewrite IH. f_equal. ring. Qed.
 
-(* exponents add, away from exponent 0 *)
-Theorem unit_pow_add : forall (u : unit_ R) a b, uval u <> 0 -> a <> 0%Z -> b <> 0%Z -> (a + b <> 0)%Z ->
-  Rupow u (a + b) = Rumul (Rupow u a) (Rupow u b).
+(* exponents add, away from exponent 0, in both variants *)
+Theorem unit_pow_add : forall pinned (u : unit_ R) a b, uval u <> 0 -> a <> 0%Z -> b <> 0%Z -> (a + b <> 0)%Z ->
+  Rupow pinned u (a + b) = Rumul (Rupow pinned u a) (Rupow pinned u b).
 Proof.
-  intros u a b H Ha Hb Hab.
-  assert (V : uval (Rupow u (a + b)) = uval (Rupow u a) * uval (Rupow u b)).
+  intros pinned u a b H Ha Hb Hab.
+  assert (V : uval (Rupow pinned u (a + b)) = uval (Rupow pinned u a) * uval (Rupow pinned u b)).
   { rewrite !upow_val by assumption. apply powerRZ_add. assumption. }
   unfold Rumul, umul. rewrite <- V. unfold Rupow, upow in *. cbn [uval uexp] in *.
   rewrite zip_add_map. reflexivity.
 Qed.
 
-Theorem unit_pow_zero_dimensionless : forall (u : unit_ R), Forall (fun e => e = 0%Z) (uexp (Rupow u 0)).
+(* repaired code: exponents add for ALL integer exponents, and u^0 is the dimensionless unit with factor 1 *)
+Theorem unit_pow_add_repaired : forall (u : unit_ R) a b, uval u <> 0 ->
+  Rupow false u (a + b) = Rumul (Rupow false u a) (Rupow false u b).
 Proof.
-  intro u. unfold Rupow, upow. cbn [uexp]. apply Forall_forall. intros e He.
+  intros u a b H.
+  assert (V : uval (Rupow false u (a + b)) = uval (Rupow false u a) * uval (Rupow false u b)).
+  { rewrite !upow_val_repaired by assumption. apply powerRZ_add. assumption. }
+  unfold Rumul, umul. rewrite <- V. unfold Rupow, upow in *. cbn [uval uexp] in *.
+  rewrite zip_add_map. reflexivity.
+Qed.
+
+Theorem unit_pow_zero_dimensionless : forall pinned (u : unit_ R), Forall (fun e => e = 0%Z) (uexp (Rupow pinned u 0)).
+Proof.
+  intros pinned u. unfold Rupow, upow. cbn [uexp]. apply Forall_forall. intros e He.
   apply in_map_iff in He as (x & <- & _). ring.
 Qed.
 
-(* "u^0 = the dimensionless unit with factor 1" is false for the code: witness cm (factor 1/100) *)
+Theorem unit_pow_zero_repaired : forall (u : unit_ R),
+  uval (Rupow false u 0) = 1 /\ Forall (fun e => e = 0%Z) (uexp (Rupow false u 0)).
+Proof. intro u. split; [reflexivity|apply unit_pow_zero_dimensionless]. Qed.
+
+(* pinned code: "u^0 = the dimensionless unit with factor 1" is false, witness cm (factor 1/100) *)
 Definition cm_R : unit_ R := mkUnit (1 / 100) [1; 0; 0; 0; 0; 0]%Z.
-Theorem unit_pow_zero_refuted : exists u : unit_ R, uval u <> 0 /\ uval (Rupow u 0) <> 1.
+Theorem unit_pow_zero_refuted : exists u : unit_ R, uval u <> 0 /\ uval (Rupow true u 0) <> 1.
 Proof. exists cm_R. cbn. split; lra. Qed.
 
 (* consequently exponents do not add through 0: cm^1 * cm^-1 = 1 but cm^(1-1) = cm^0 keeps 1/100 *)
 Theorem unit_pow_add_refuted : exists (u : unit_ R) a b, uval u <> 0 /\
-  uval (Rupow u (a + b)) <> uval (Rumul (Rupow u a) (Rupow u b)).
+  uval (Rupow true u (a + b)) <> uval (Rumul (Rupow true u a) (Rupow true u b)).
 Proof.
   exists cm_R, 1%Z, (-1)%Z. split; [cbn; lra|].
-  change (uval (Rupow cm_R (1 + -1))) with (1 / 100).
+  change (uval (Rupow true cm_R (1 + -1))) with (1 / 100).
   unfold Rumul, umul. cbn [uval]. rewrite !upow_val by (cbn; (lra || lia)).
   rewrite <- powerRZ_add by (cbn; lra). cbn. lra.
 Qed.
@@ -991,9 +1018,10 @@ Proof. intros. unfold Rumul, umul. cbn [uval uexp]. rewrite zip_add_assoc. f_equ
 
 Section Tokens.
   Variable single : str -> option (unit_ R).
-  Local Notation ev_token := (eval_token R Rmult Rdiv 1 single).
-  Local Notation ev_rest := (eval_rest R Rmult Rdiv 1 single).
-  Local Notation ev := (eval_tokens R Rmult Rdiv 1 single).
+  Variable pinned : bool.
+  Local Notation ev_token := (eval_token R Rmult Rdiv 1 single pinned).
+  Local Notation ev_rest := (eval_rest R Rmult Rdiv 1 single pinned).
+  Local Notation ev := (eval_tokens R Rmult Rdiv 1 single pinned).
 
   Lemma eval_rest_mul : forall ts a b w, ev_rest b ts = Some w -> ev_rest (Rumul a b) ts = Some (Rumul a w).
   Proof.
@@ -1049,8 +1077,13 @@ Lemma unit_table_consistent : table_consistent = true.
 Proof. vm_compute. reflexivity. Qed.
 
 Lemma float_pow_zero_witness :
-  f_get_unit (S_ "cm^0"%string) = Some (mkUnit 0x1.47ae147ae147bp-7%float [0; 0; 0; 0; 0; 0]%Z) /\
-  f_to_SI 12 1%float (S_ "m cm^0"%string) = Some 0x1.47ae147ae147bp-7%float.
+  f_get_unit true (S_ "cm^0"%string) = Some (mkUnit 0x1.47ae147ae147bp-7%float [0; 0; 0; 0; 0; 0]%Z) /\
+  f_to_SI true 12 1%float (S_ "m cm^0"%string) = Some 0x1.47ae147ae147bp-7%float.
+Proof. split; vm_compute; reflexivity. Qed.
+
+Lemma float_pow_zero_repaired :
+  f_get_unit false (S_ "cm^0"%string) = Some (mkUnit 1%float [0; 0; 0; 0; 0; 0]%Z) /\
+  f_to_SI false 12 1%float (S_ "m cm^0"%string) = Some 1%float.
 Proof. split; vm_compute; reflexivity. Qed.
 
 (* ------------------------------------------------------------------------
